@@ -120,10 +120,25 @@ def main():
         meta = json.load(open(os.path.join(SEEDED, sid, "meta.json")))
         props = sys.argv[3:] or [meta["property"]]
         print(json.dumps(check(sid, props), indent=1))
+    elif cmd == "benign":
+        # behaviour-preserving changes: every check must stay quiet
+        bad = []
+        ids = sys.argv[2:] or [os.path.basename(os.path.dirname(mp)) for mp in sorted(glob.glob(os.path.join(SEEDED, "*", "meta.json")))
+                               if json.load(open(mp)).get("benign")]
+        for sid in ids:
+            r = check(sid, ["C02", "C03", "C04", "C10", "C12", "C17", "C20"])
+            alarms = [(p, r[p]["first"][:200]) for p in r if p != "id" and r[p]["rc"] != 0]
+            print("%s %s %s" % ("QUIET" if not alarms else "FALSE-ALARM", sid, alarms))
+            if alarms:
+                bad.append(sid)
+        print("benign: false alarms on %s" % bad)
+        return 1 if bad else 0
     else:
         missed = []
         for mp in sorted(glob.glob(os.path.join(SEEDED, "*", "meta.json"))):
             meta = json.load(open(mp))
+            if meta.get("benign"):
+                continue
             sid = os.path.basename(os.path.dirname(mp))
             r = check(sid, [meta["property"]])
             ok = r[meta["property"]]["rc"] == 1
